@@ -170,6 +170,14 @@ def gen_series(rng, n, positive):
             obs = np.abs(rng.normal(size=n)) * 10 ** rng.uniform(-2, 3) + 1e-3
         sim = obs * np.exp(rng.normal(size=n) * rng.uniform(0.01, 0.8)) * \
             rng.uniform(0.5, 1.5)
+    elif k == 3:
+        # a high level with a small spread (stage heights above a datum, reservoir
+        # levels): std / |mean| between 3e-6 and 1e-4
+        loc = float(2.0 ** rng.integers(10, 23)) * float(rng.choice([-1, 1]))
+        sd = abs(loc) * 10 ** rng.uniform(-5.5, -4)
+        obs = loc + rng.normal(size=n) * sd
+        sim = obs + rng.normal(size=n) * sd * rng.uniform(0.05, 1.0)
+        return obs.astype(np.float64), sim.astype(np.float64)
     else:
         loc = rng.normal() * 5
         obs = rng.normal(size=n) * rng.uniform(0.5, 5) + loc
@@ -220,7 +228,10 @@ def run_scores_case(ctx, case):
     if c is None:
         ctx.extra["scores.skipped-degenerate"] += 1
         return
-    tol = 1e-9 * c
+    # a two-pass evaluation of the definitions loses about eps x c (c = conditioning of
+    # the centred sums); 1e-12 x c leaves a factor of several thousand for the order of
+    # summation while exposing one-pass formulas, whose error grows like eps x c^2
+    tol = 1e-12 * c
     tl, sl = tov.tolist(), tsv.tolist()
     base = {k: case[k] for k in ("trans", "excludenull")}
     nontriv = False
@@ -256,7 +267,7 @@ def run_scores_case(ctx, case):
     if ss > 1e-6 * max(1e-300, float(np.max(np.abs(tsv)))):
         ref = ref_kge(tl, sl)
         cs = cond(tsv) or 1e6
-        ctx.check("kge.definition", eq(got, ref, 1e-9 * (c + cs) * (1 + abs(ref))),
+        ctx.check("kge.definition", eq(got, ref, 1e-12 * (c + cs) * (1 + abs(ref))),
                   "kge|definition" + ("|excludenull" if excl else ""), case,
                   lambda: {"got": repr(got), "ref": ref, **base})
         ctx.check("kge.le1", not isinstance(got, Exception) and
@@ -437,7 +448,7 @@ def run_identities_case(ctx, case):
     n0 = call(m.nse, obs, sim)
     n1 = call(m.nse, a * obs + b, a * sim + b)
     mag = 1 + abs(b) / (abs(a) * float(np.std(obs)))
-    ctx.check("nse.affine-invariant", eq(n0, n1, 1e-10 * (co + mag) * (1 + abs(n0))),
+    ctx.check("nse.affine-invariant", eq(n0, n1, 1e-12 * (co + mag) * (1 + abs(n0))),
               "nse|affine-invariance", case,
               lambda: {"base": repr(n0), "mapped": repr(n1), "a": a, "b": b})
     s = abs(a) if a != 0 else 2.0
